@@ -315,7 +315,7 @@ func (ex *Exec) builtin(fr *Frame, st *State, name string, args []Value, c *ssa.
 		}
 		return args[0]
 	case "ssa:deferstack":
-		return Sc{BVi(0, 32), rt}
+		return zeroValue(rt)
 	}
 	unsup("builtin %s", name)
 	return nil
